@@ -769,6 +769,7 @@ func TestC15(t *testing.T) {
 	runtime.GOMAXPROCS(procs0)
 	f9(r)
 	readerClosesEmitter(r)
+	oddSubscribeLists(r)
 
 	if !r.Replaying() && r.Violations() == 0 {
 		q := func(quick, thorough int) int {
